@@ -250,9 +250,11 @@ impl<'a, F: IVP> SolOut for DefaultSolOut<'a, F> {
                         let mut fa = g_prev;
                         let mut fb = g_curr;
 
-                        let (event_t, event_y) = if fa.abs() <= XTOL {
+                        // XTOL is a tolerance on the event time; only an exact zero of the event
+                        // function at a step end locates the event there (as brentq does)
+                        let (event_t, event_y) = if fa == 0.0 {
                             (a, self.yold.clone())
-                        } else if fb.abs() <= XTOL {
+                        } else if fb == 0.0 {
                             (b, y.to_vec())
                         } else {
                             // Brent's method
